@@ -95,7 +95,10 @@ def execute(spec):
             else:
                 if bind_addr is None:
                     continue
-                body = bytes(rng.getrandbits(8) for _ in range(rng.randrange(0, 40)))
+                # reply sizes: small ones, the classic 512-byte limit +-1, EDNS0 sizes (the forwarded query advertises 4096)
+                blen = rng.randrange(0, 40) if n % 3 else rng.choice([488, 499, 500, 501, 511, 512, 513, 600, 1220, 1232,
+                                                                      1440, 4000, 4083, 4084])
+                body = bytes(rng.getrandbits(8) for _ in range(blen))
                 rep = struct.pack(">HHHHHH", wire_id(m["id"], spec["seed"]), 0x8180, 0, 0, 0, 0) + body
                 w.send(RESOLVER, bind_addr, rep, "resolver")
                 w.run_until(t=w.now + 3000)
